@@ -1,0 +1,37 @@
+//go:build verif
+
+// Contracts for package link_holdopen_controller, checked by /verif (bfvc). Comment-only.
+package link_holdopen_controller
+
+// ---- C33: hold-open keeps a strong reference exactly while links exist ----
+// mtx guards the link count and the strong reference. Invariant: a strong reference is held
+// only while at least one link value is present. Every critical section — the three
+// callbacks and the goroutine that acquires the reference — is verified from an arbitrary
+// state satisfying the invariant, which covers rapid add/remove and concurrent additions.
+//@ guards establishLinkHandler.mtx: valCount, rigidRef, ref
+//@ lockinv establishLinkHandler.mtx: self.valCount >= 0 && (self.rigidRef != nil ==> self.valCount > 0)
+
+// In every section a held strong reference is kept or dropped, never replaced (no leak).
+//@ func (*establishLinkHandler).HandleValueAdded
+//@   noframe
+//@   nosweep nil-deref
+//@   cs establishLinkHandler.mtx ensures old(self.rigidRef) != nil ==> self.rigidRef == old(self.rigidRef) || self.rigidRef == nil
+//@   cs establishLinkHandler.mtx ensures self.valCount == old(self.valCount) + 1
+
+// the acquiring goroutine
+//@ func (*establishLinkHandler).HandleValueAdded$1
+//@   noframe
+//@   requires e != nil && e.di != nil
+//@   cs establishLinkHandler.mtx ensures old(self.rigidRef) != nil ==> self.rigidRef == old(self.rigidRef) || self.rigidRef == nil
+//@   cs establishLinkHandler.mtx ensures self.valCount == old(self.valCount)
+
+//@ func (*establishLinkHandler).HandleValueRemoved
+//@   noframe
+//@   cs establishLinkHandler.mtx ensures old(self.rigidRef) != nil ==> self.rigidRef == old(self.rigidRef) || self.rigidRef == nil
+//@   cs establishLinkHandler.mtx ensures old(self.valCount) > 0 ==> self.valCount == old(self.valCount) - 1
+//@   cs establishLinkHandler.mtx ensures self.valCount == 0 ==> self.rigidRef == nil
+
+//@ func (*establishLinkHandler).HandleInstanceDisposed
+//@   noframe
+//@   nosweep nil-deref guard
+//@   cs establishLinkHandler.mtx ensures old(self.rigidRef) != nil ==> self.rigidRef == old(self.rigidRef) || self.rigidRef == nil
